@@ -129,6 +129,14 @@ double __CPROVER_uninterpreted_fmul(double, double);
 #define VF_FMUL(a, b) ((a) * (b))
 #endif
 
+/* reachability probe for harnesses that use plain assertions (no enforced contract): the runner
+ * re-runs the group with VF_VACUITY_PROBE defined and requires this assertion to FAIL */
+#if defined(VF_CBMC) && defined(VF_VACUITY_PROBE)
+#define VF_REACHED() __CPROVER_assert(0, "VF_VACUITY probe: end of harness reached")
+#else
+#define VF_REACHED() ((void)0)
+#endif
+
 /* calling the function under contract: under CBMC the contract is enforced by --dfcc at this call;
  * natively the generated VF_PRE_/VF_SNAP_/VF_POST_ macros evaluate the same clauses.  The harness
  * must name its variables like the function's parameters. */
